@@ -61,6 +61,17 @@ type Acc struct {
 
 func A(p unsafe.Pointer, s string) Acc { return Acc{p, s} }
 
+// P evaluates an address expression that dereferences pointers on the way; nil if one of them is
+// nil (the instrumentation must not introduce a nil dereference of its own).
+func P(f func() unsafe.Pointer) (p unsafe.Pointer) {
+	defer func() {
+		if recover() != nil {
+			p = nil
+		}
+	}()
+	return f()
+}
+
 type accessState struct {
 	lastWrite accessRec
 	hasWrite  bool
@@ -73,7 +84,7 @@ type accessState struct {
 // current thread's position iff c <= vc[u] (epoch test; clocks advance at every release).
 func Access(ptr unsafe.Pointer, loc string, write bool, site string) {
 	sc := s
-	if sc == nil || sc.aborting || sc.cur == nil {
+	if sc == nil || sc.aborting || sc.cur == nil || ptr == nil {
 		return
 	}
 	t := sc.cur
